@@ -416,7 +416,7 @@ class Equality(Fam):
     name = 'equality'
     exhaustive = True
     rule = ('all ordered pairs from a family of collections differing in k, prefix, one element of one signature, length, integer width '
-            'and container kind (array/list/hdf5/annotated): == both ways and != ')
+            'and container kind (array/list/hdf5/annotated), incl. collections holding the same k-mers end to end but split differently: == both ways and != ')
 
     def inputs(self, ctx):
         base = make_items(3)
@@ -435,6 +435,13 @@ class Equality(Fam):
         fam.append(dict(cont='list', items=[base[1], base[0], base[2]], k=8, prefix='ATG', dtype='u2'))
         fam.append(dict(cont='list', items=[], k=8, prefix='ATG', dtype='u2'))
         fam.append(dict(cont='array', items=[], k=8, prefix='ATG', dtype='u2'))
+        # the same k-mers end to end, split into signatures differently (boundaries matter, not only the concatenated values)
+        flat = [v for it in base for v in it]
+        for cont in ('array', 'hdf5', 'list'):
+            fam.append(dict(cont=cont, items=[flat[:1], flat[1:-1], flat[-1:]], k=8, prefix='ATG', dtype='u2'))
+        fam.append(dict(cont='array', items=[[], flat, []], k=8, prefix='ATG', dtype='u2'))
+        fam.append(dict(cont='hdf5', items=[flat, [], []], k=8, prefix='ATG', dtype='u2'))
+        fam.append(dict(cont='array', items=[[], [], flat], k=8, prefix='ATG', dtype='u2'))
         for a, b in itertools.product(fam, repeat=2):
             yield dict(op='eq', a=a, b=b)
 
